@@ -34,7 +34,7 @@ REACH = {
             "C01.stale_kind:addMark", "stats:byz.ok", "stats:rebase"],
     "C03": ["C03.kind:replace", "C03.kind:replaceAround", "C03.kind:addMark", "C03.kind:attr", "stats:rebase"],
     "C04": ["C04.tr:ok", "C04.tr:refused", "C04.rebase_undo_checked", "C04.rebased_undo_checked",
-            "C04.recovered_versions", "C04.single:replace", "C04.single:replaceAround"],
+            "C04.recovered_versions", "C04.single:replace", "C04.single:replaceAround", "C04.replays_from_zero"],
     "C05": ["C05.wire_kind:replace", "C05.wire_kind:replaceAround", "C05.wire_kind:addMark",
             "C05.wire_kind:removeMark", "C05.wire_kind:addNodeMark", "C05.wire_kind:removeNodeMark",
             "C05.wire_kind:attr", "C05.wire_kind:docAttr", "C05.twin_applications", "C05.docs", "C05.slices"],
@@ -231,8 +231,9 @@ def main():
         known_hits.update(r["known_hits"])
     known_lines = []
     for k in known:
-        if k.get("status") == "known" and k["property"] == prop and known_hits.get(k["id"]):
-            line = "KNOWN-FINDING: property=%s %s (seen %d times)" % (prop, k["what"], known_hits[k["id"]])
+        if k.get("status") == "known" and k["property"] == prop:
+            line = "KNOWN-FINDING: property=%s [%s] %s (met %d times in this run)" % (
+                prop, k["id"], k["what"], known_hits.get(k["id"], 0))
             known_lines.append(line)
             print(line)
     rc = 0
